@@ -151,5 +151,12 @@ def removeSingNested (e : Expr) : List (Name × Expr × Expr) → Expr
   | [] => e
   | s :: rest => .cond (.rel .eq (.var s.1) s.2.1) s.2.2 (removeSingNested e rest)
 
+/-- the names the time-stepping schemes add (`dt`, `<d>_linearized` for each derivative `d`) are
+not model identifiers (executable form of `GenValidRL.NoHelperClash`) -/
+def checkNoHelperClash (m : Model) : Bool :=
+  let known := m.stateNames ++ m.paramNames ++ m.assignNames ++ missingVariables m
+  !known.contains "dt" &&
+  m.derivs.all fun d => !known.contains (linName d.1) && !initBoundScheme.contains (linName d.1)
+
 end Impl
 end Gx
